@@ -76,7 +76,8 @@ def _worker(args):
         hook = props_hooks.HOOKS[extra["hook"]](state)
     tracer, eps = batch.run_batch(seed, n, profiles, tracer=tracer, custom_buffers_p=custom_p,
                                   env_hook=hook, ps=extra.get("ps", (0.1, 0.5, 0.9, 1.0)),
-                                  trunc_p=extra.get("trunc_p", 0.3), gen_kw=extra.get("gen_kw"))
+                                  trunc_p=extra.get("trunc_p", 0.3), gen_kw=extra.get("gen_kw"),
+                                  phased_p=extra.get("phased_p", 0.0), early_p=extra.get("early_p", 0.6))
     drv = jsl.Driver()
     out = {"episodes": len(eps), "records": len(tracer.records), "violations": [], "disagreements": [],
            "ends": collections.Counter(e.end for e in eps), "features": collections.Counter(),
@@ -303,7 +304,12 @@ def sm_check(ctx, n_quick=160, n_thorough=1500, custom_p=0.15, extra=None, worke
     seeds = [rng.randrange(1 << 30) for _ in range(w)]
     # corpus seeds first (cases that once disagreed or violated)
     corpus = ctx.verif / "corpus" / (prop + ".json")
-    args = [(prop, s, per, PROFILES.get(prop, ("mixed",)), want_events, custom_p, extra) for s in seeds]
+    profiles = tuple(extra.pop("profiles", None) or PROFILES.get(prop, ("mixed",)))
+    if extra.get("all_workers"):
+        w = min(16, ncpu)
+        per = max(1, n // w)
+        seeds = [rng.randrange(1 << 30) for _ in range(w)]
+    args = [(prop, s, per, profiles, want_events, custom_p, extra) for s in seeds]
     if corpus.exists():
         for c in json.loads(corpus.read_text()):
             args.insert(0, (prop, c["seed"], c["n"], tuple(c["profiles"]), want_events, c.get("custom_p", custom_p), extra))
@@ -438,6 +444,19 @@ def c04(ctx):
     sm_check(ctx, n_quick=200, extra={"hook": "c04", "record_env": True})
     keep_only(ctx, lambda v: not v["kind"].startswith("outcome:") and not v["kind"].startswith("state:"))
     _merge_hook(ctx, "c04_")
+    if ctx.broken_correspondence and not ctx.violations:
+        # the correspondence is broken and no clause of the property failed on the sampled episodes: directed
+        # search for a failing input (truncation always active, small allowances, mostly declining policies)
+        cov, broken, samples = dict(ctx.coverage), list(ctx.broken_correspondence), list(ctx.samples)
+        sm_check(ctx, n_quick=4000, extra={"hook": "c04", "record_env": True, "trunc_p": 1.0,
+                                           "ps": (0.0, 0.1, 0.3, 0.5, 0.2), "profiles": ("zerotravel", "transport", "classic", "zerotravel"),
+                                           "all_workers": True, "phased_p": 0.7, "early_p": 0.4})
+        keep_only(ctx, lambda v: not v["kind"].startswith("outcome:") and not v["kind"].startswith("state:"))
+        _merge_hook(ctx, "c04_")
+        cov["directed_search_after_broken_correspondence"] = {"episodes": ctx.coverage.get("episodes"),
+                                                              "violations_found": len(ctx.violations)}
+        ctx.coverage, ctx.samples = cov, samples
+        ctx.broken_correspondence = broken
 
 
 def c18(ctx):
